@@ -25,6 +25,18 @@ T = {
  "C16-m2": ("C16", "truncatewords' 'only white space follows' guard simplified to end == len(s): a string of exactly n words that ends in white space gets the ellipsis", "c16.apply"),
  "C18-m1": ("C18", "Equal takes a same-type shortcut for comparable types: two [N]any arrays are compared with Go ==, so a Drop / int8 / float element no longer equals the plain value", "c18.equality (added after the first run missed it)"),
  "C18-m2": ("C18", "uniq filters in place (result = a[:0]) and overwrites a bound []any", "c18.programs (also c15.apply input-modified, c03.history)"),
+ "C05-m1": ("C05", "trim-token cases moved ahead of the comment/raw mode checks in the parser: hyphenated tag-like text inside a raw or comment body becomes live trim nodes and eats white space of the body", "c05.raw-comment"),
+ "C05-m2": ("C05", "the tokenizer counts newlines only in a token's arguments, not in the padding next to the delimiters: later tokens are stamped with too small a line", "c05.scan (token-line)"),
+ "C06-m1": ("C06", "the parser forgets the clause it was appending to when a nested block ends (needs >= 6 tokens: content after a block nested in a non-first clause)", "c06.sequences (tree), from the length-6 part of the exhaustive enumeration in thorough and from the random trees in quick"),
+ "C06-m2": ("C06", "clause admission uses sort.SearchStrings(...) < len without comparing the found element: else admitted in capture/tablerow, elsif in capture/case/for, when in capture", "c06.sequences (accepted-ill-nested)"),
+ "C07-m1": ("C07", "the tokenizer advances the line counter by the newlines in a token's Args instead of its whole source", "c07.locate"),
+ "C07-m2": ("C07", "an object-parse memo keyed by the argument text caches the whole AST object including its location: a render error in an object textually identical to an earlier one reports the earlier line", "c07.locate after the layouts gained a never-executed decoy copy of the failing construct; missed before"),
+ "C13-m1": ("C13", "trim tokens inside comment/raw become live trim nodes (same edit as C05-m1): an inner-side hyphen trims text outside the block", "c13.hyphens after inner-side hyphens of raw/comment were brought into the strong relation as no-ops; missed while they were excluded from it"),
+ "C13-m2": ("C13", "trimWriter.Write returns early on an empty (fully trimmed) write without clearing the trim flag: the next write is trimmed too", "c13.hyphens"),
+ "C19-m1": ("C19", "a process-wide regexp cache keyed by the concatenation of the four delimiters: two different quadruples with the same concatenation share a matcher", "c19.equivalence / c19.defaults-are-text (many engines per process)"),
+ "C19-m2": ("C19", "hyphen detection refactored into a helper that is called with the object-right delimiter for tags: a tag's closing hyphen is looked for at the wrong offset when the two right delimiters differ in length", "c19.equivalence"),
+ "C20-m1": ("C20", "writeObject keeps only the last element's write error when printing an array: an array with an empty tail as the last output swallows the failure", "c20.write-faults after programs gained array prints with nil/empty tails; missed before"),
+ "C20-m2": ("C20", "RenderSequence flushes in a defer that keeps the 'primary' error: a flush failure is dropped while a break/continue pseudo-error unwinds and the loop then discards that", "c20.write-faults after programs gained endings in a loop whose last action is break/continue (and bare jumps); missed before"),
  "C17-m1": ("C17", "round gains a fast path math.Floor(n+0.5) for places == 0: odd integers between 2^52 and 2^53 round to their even neighbour", "c17.apply"),
  "C17-m2": ("C17", "ValueOf interns float 0.0/1.0 as int 0/1: divided_by with a float divisor of exactly 1.0 does integer division", "c17.apply"),
 }
